@@ -961,7 +961,7 @@ class Struct(Unpacker[NDInstance]):
                 struct_code = "h"
             elif 5 <= len(representation.digit_groups[1]) < 10:
                 struct_code = "i"
-            elif 10 <= len(representation.digit_groups[1]) < 18:
+            elif 10 <= len(representation.digit_groups[1]) <= 18:
                 struct_code = "q"
             else:  # pragma: no cover
                 raise ValueError(f"Usage {representation!r} too large")
